@@ -324,7 +324,8 @@ def realize(recipe):
     if 'overlay' in recipe:
         o = recipe['overlay']
         return g.overlay(o['length'], o['background'], tuple(o['sigs']),
-                         o.get('fill', 1), o.get('fat', False)), None
+                         o.get('fill', 1), o.get('fat', False),
+                         o.get('corrupt')), None
     fmt, params = recipe['base']
     img = g.build(fmt, params)
     data = bytearray(img.data)
@@ -414,12 +415,13 @@ def polyglots(draw):
                                  'luks']))
     others = draw(st.sets(st.sampled_from(['vdi', 'gpt', 'iso'])))
     sigs = ([sig0] if sig0 else []) + sorted(others)
-    return {'overlay': dict(length=length,
-                            background=draw(st.sampled_from(
-                                ['zero', 'random', 'text'])),
-                            sigs=sigs, fill=draw(fills),
-                            fat=draw(st.integers(0, 5)) == 0),
-            'kind': 'polyglot'}
+    o = dict(length=length,
+             background=draw(st.sampled_from(['zero', 'random', 'text'])),
+             sigs=sigs, fill=draw(fills), fat=draw(st.integers(0, 5)) == 0)
+    if sigs and draw(st.integers(0, 3)) == 0:
+        # near miss: one byte of one signature is wrong
+        o['corrupt'] = {draw(st.sampled_from(sigs)): draw(st.integers(0, 7))}
+    return {'overlay': o, 'kind': 'polyglot'}
 
 
 def unstructured():
